@@ -2407,6 +2407,10 @@ class TupleParser:
           cimtype (str): CIM data type name (e.g. 'datetime') except
             'reference', or None (in which case a numeric value is assumed).
         """
+        if data is None:
+            # NULL value, e.g. a VALUE.NULL entry in a VALUE.ARRAY
+            return None
+
         if cimtype == 'string':
             return data
 
